@@ -43,8 +43,6 @@ MONITORS = [probe_monitor]
 
 
 def builder(g, E, do, length):
-    import impl_engine
-    import gen_engine
     last = None
     for k in range(length):
         line = g.line()
@@ -66,28 +64,71 @@ def builder(g, E, do, length):
         elif x < 0.30 and last is not None:
             line["req"]["version"] = last
         last = line["req"]["version"]
-        # fresh engine on a copy of the database, taken before the live engine sees the probe
-        E.engine._data_store.dispose()
-        copy = E.db + ".probe"
-        shutil.copyfile(E.db, copy)
-        o = do(line)
-        live_dump = E.dump()
-        F = impl_engine.ImplEngine(scripted_crypto=True)
-        try:
-            shutil.copyfile(copy, F.db)
-            F.policies = E.policies
-            F.restart()
-            F.engine._operation_policies = E.policies
-            fresh = F.request(line["now"], line["id"], line["req"])
-            fresh_dump = F.dump()
-        finally:
-            F.close()
-            os.remove(copy)
-        if isinstance(o, dict):
-            o["_fresh"] = fresh
-            o["_fresh_dump"] = fresh_dump
-            o["_live_dump"] = live_dump
-        do({"cmd": "dump"})
+        probed(E, do, line)
+
+
+def probed(E, do, line):
+    """serve `line` on the live engine AND on a fresh engine opened on a copy of the database taken just before"""
+    import impl_engine
+    # fresh engine on a copy of the database, taken before the live engine sees the probe
+    E.engine._data_store.dispose()
+    copy = E.db + ".probe"
+    shutil.copyfile(E.db, copy)
+    o = do(line)
+    live_dump = E.dump()
+    F = impl_engine.ImplEngine(scripted_crypto=True)
+    try:
+        shutil.copyfile(copy, F.db)
+        F.policies = E.policies
+        F.restart()
+        F.engine._operation_policies = E.policies
+        fresh = F.request(line["now"], line["id"], copy_req(line["req"]))
+        fresh_dump = F.dump()
+    finally:
+        F.close()
+        os.remove(copy)
+    if isinstance(o, dict):
+        o["_fresh"] = fresh
+        o["_fresh_dump"] = fresh_dump
+        o["_live_dump"] = live_dump
+    do({"cmd": "dump"})
+    return o
+
+
+def copy_req(req):
+    import copy as _c
+    return _c.deepcopy(req)
+
+
+def wrapped_builder(g, E, do, length):
+    """what ONE client's request makes of an object in the server's memory must not show in the next request: a key is
+    read plainly, read WRAPPED (a successful Get with a key wrapping specification), and read plainly again - by its
+    owner and by another client -, every request probed against a fresh engine on the same database"""
+    from gen_engine import hexof
+    from scen_engine import _A, _req, _uid
+    r = g.r
+    ver = g.ch([12, 13, 14, 14])
+
+    def key(mask, nbytes, name):
+        attrs = [_A("Cryptographic Algorithm", "enum", 3), _A("Cryptographic Length", "int", nbytes * 8),
+                 _A("Cryptographic Usage Mask", "int", mask), _A("Name", "name", name, 0, t=1)]
+        return _uid(do(_req(g, [{"op": "create", "otype": 2, "tmpl": {"tnames": 0, "attrs": attrs},
+                                 "crypto": {"k": "ok", "t": hexof(nbytes, rnd=r)}}], ver)))
+    W = key(0x10 | 0x20 | 4 | 8, 16, "wrapper%d" % r.randrange(1000))
+    K = key(12, 16, "plain%d" % r.randrange(1000))
+    K2 = key(12, 32, "other%d" % r.randrange(1000))
+    if W is None or K is None:
+        return
+    do(_req(g, [{"op": "activate", "uid": W}], ver))
+    plain = lambda u: {"op": "get", "uid": u, "format": None, "compression": False, "wrap": None}
+    wrapped = lambda u: {"op": "get", "uid": u, "format": None, "compression": False,
+                         "wrap": {"method": 1, "enckey": W, "encparams": True, "mackey": False, "attrnames": 0, "encoding": 1},
+                         "crypto": {"k": "ok", "t": hexof(24, rnd=r)}}
+    seq = [plain(K), wrapped(K), plain(K), {"op": "getAttributes", "uid": K, "names": []}, wrapped(K), plain(K),
+           plain(K2), wrapped(K2), plain(K2)]
+    for k, it in enumerate(seq[:max(4, length)]):
+        line = _req(g, [dict(it)], ver, user="alice" if (k % 5) != 4 else "bob")
+        probed(E, do, line)
 
 
 def nontrivial(j, o):
@@ -207,6 +248,8 @@ def session_part(ctx):
 def run(ctx):
     engine_check.standard_run(ctx, PROFILE, MONITORS, nontrivial, RULE, n_quick=96, n_thorough=1500, length=25,
                               builder="props.c11.builder")
+    engine_check.scenario_run(ctx, "props.c11.wrapped_builder", MONITORS, lambda j, o: True, RULE, 12, 200, 9,
+                              "plain_wrapped_plain_part", seed_base=850000)
     session_part(ctx)
     # M17: connections one after the other on one store, byte for byte against the composed model, and the
     # fresh-server probe at the connection level
